@@ -114,7 +114,7 @@ def sh_cgroup(J, p, o):
     """Target inside a class group: data.n (and data.m) -> model.k (required parameter)."""
     C = _funcs()
     p.add_class_arguments(C.Data, "data")
-    p.add_class_arguments(C.Model, "model")
+    p.add_class_arguments(C.Model, "model", **({"sub_configs": True} if o.get("subcfg") else {}))
     fn = o.get("fn")
     src = ["data.n", "data.m"] if fn == "f2" else ["data.n"]
     p.link_arguments(tuple(src) if len(src) > 1 else src[0], "model.k", C.FUNCS.get(fn))
@@ -134,7 +134,7 @@ def sh_init(J, p, o):
     p.add_argument("--s", type=int, default=sval(0, "default"))
     decl = o.get("decl", "arg")
     if decl == "arg":
-        p.add_argument("--x", type=C.Base)
+        p.add_argument("--x", type=C.Base, **({"enable_path": True} if o.get("subcfg") else {}))
     elif decl == "sub":
         p.add_subclass_arguments(C.Base, "x", required=False)
     else:  # "lazy": the class comes from the default
@@ -316,7 +316,42 @@ def sh_null(J, p, o):
     return info
 
 
-SHAPES = {"null": sh_null, "plain": sh_plain, "two": sh_two, "grp": sh_grp, "cgroup": sh_cgroup, "init": sh_init, "list": sh_list,
+# Links with SEVERAL sources of which one or more are group-valued (family `mix`): which of the sources is a group,
+# at which position, and whether the corresponding compute_fn parameter is annotated as a mapping (-> the function
+# must be handed a plain dict) or not.  Kinds per source: S (int argument), Gd (class group, parameter annotated
+# dict / Dict / Mapping), Gn (class group, parameter not annotated).  The fixture functions make the kind of object
+# they were handed visible in their result for the Gd parameters (see classes._gd).
+def sh_mix(J, p, o):
+    C = _funcs()
+    kinds = o["sk"].split("-")
+    srcs, leaves, defaults = [], [], {}
+    ns = ng = 0
+    for kd in kinds:
+        if kd == "S":
+            ns += 1
+            name = "s" if ns == 1 else f"s{ns}"
+            p.add_argument("--" + name, type=int, default=sval(len(leaves), "default"))
+            leaves.append(name)
+        else:
+            ng += 1
+            name = "data" if ng == 1 else f"data{ng}"
+            p.add_class_arguments(C.Data, name)
+            leaves.append(name + ".n")  # member m stays at its default
+            defaults[name + ".n"] = 3
+        srcs.append(name)
+    p.add_argument("--t", type=int, required=True)
+    fn = "mix_" + "_".join(kd.lower() for kd in kinds)
+    p.link_arguments(tuple(srcs), "t", C.FUNCS[fn])
+    return {
+        "leaves": leaves,
+        "defaults": defaults,
+        "links": [{"src": srcs, "fn": fn, "tgt": "t", "kind": "plain"}],
+        "topt": "--t",
+        "tenv": "t",
+    }
+
+
+SHAPES = {"mix": sh_mix, "null": sh_null, "plain": sh_plain, "two": sh_two, "grp": sh_grp, "cgroup": sh_cgroup, "init": sh_init, "list": sh_list,
           "holder": sh_holder, "spell": sh_spell}
 
 
@@ -324,41 +359,60 @@ def new_parser(J):
     return J.ArgumentParser(exit_on_error=False, default_env=True, env_prefix="APP")
 
 
-def build(J, shape, o):
-    """Fresh parser(s) for one shape.  Returns (root parser, info); info["prefix"] = subcommand path of the shape."""
+def build(J, shape, o, late=None, warm=None):
+    """Fresh parser(s) for one shape.  Returns (root parser, info); info["prefix"] = subcommand path of the shape.
+
+    History axis: with `late` = k only the first k links of the shape are declared while the parser is built; then
+    the finished (root) parser is USED - `warm(root, info)` runs a parse on it - and only then are the remaining
+    links declared, in their usual order, on the parser that has already parsed."""
     wrap = o.get("wrap")
     leaf = new_parser(J)
     leaf.add_argument("--config", action="config")
+    deferred, seen = [], [0]
+    if late is not None:
+        declare = leaf.link_arguments
+
+        def recorder(*a, **kw):
+            seen[0] += 1
+            if seen[0] <= late:
+                return declare(*a, **kw)
+            deferred.append((a, kw))
+
+        leaf.link_arguments = recorder
     info = SHAPES[shape](J, leaf, o)
+    if late is not None:
+        del leaf.link_arguments
     info.setdefault("group", None)
     info.setdefault("one", {})
     info.setdefault("many", [])
     if not wrap:
         info["prefix"] = []
-        return leaf, info
-    other = new_parser(J)
-    other.add_argument("--o", type=int, default=2)
-    if wrap == "sub":
+        root = leaf
+    else:
+        other = new_parser(J)
+        other.add_argument("--o", type=int, default=2)
         root = new_parser(J)
         root.add_argument("--config", action="config")
         root.add_argument("--top", type=int, default=0)
         sc = root.add_subcommands()
-        sc.add_subcommand("cmd", leaf)
-        sc.add_subcommand("oth", other)
-        info["prefix"] = ["cmd"]
-        return root, info
-    # "subsub": two levels, built level by level
-    mid = new_parser(J)
-    mid.add_argument("--mid", type=int, default=0)
-    root = new_parser(J)
-    root.add_argument("--config", action="config")
-    root.add_argument("--top", type=int, default=0)
-    sc = root.add_subcommands()
-    sc.add_subcommand("cmd", mid)
-    sc = mid.add_subcommands()
-    sc.add_subcommand("run", leaf)
-    sc.add_subcommand("oth", other)
-    info["prefix"] = ["cmd", "run"]
+        if wrap == "sub":
+            sc.add_subcommand("cmd", leaf)
+            sc.add_subcommand("oth", other)
+            info["prefix"] = ["cmd"]
+        else:  # "subsub": two levels, built level by level
+            mid = new_parser(J)
+            mid.add_argument("--mid", type=int, default=0)
+            sc.add_subcommand("cmd", mid)
+            sc = mid.add_subcommands()
+            sc.add_subcommand("run", leaf)
+            sc.add_subcommand("oth", other)
+            info["prefix"] = ["cmd", "run"]
+    if late is not None:
+        info["links_declared_late"] = len(deferred)
+        if warm is not None:
+            warm(root, info)
+        for a, kw in deferred:
+            leaf.link_arguments(*a, **kw)
     return root, info
 
 
@@ -384,6 +438,12 @@ def spec(name, with_k):
     return s
 
 
+def write_input(info, fname, content):
+    os.makedirs(info["indir"], exist_ok=True)
+    with open(os.path.join(info["indir"], fname), "w") as f:
+        json.dump(content, f)
+
+
 def render(info, case):
     """-> {"argv": [...], "env": {...}, "doc": nested dict for parse_object / parse_string (or None)}"""
     prefix = info["prefix"]
@@ -393,7 +453,22 @@ def render(info, case):
     tval = info.get("tval", {"z": TGT} if info.get("tdict") else TGT)
     enc = ENC[info.get("enc", "int")]
     env, cfgd, doc, items, early = {}, {}, {}, [], []
+    cfg_as_file = False
     doc_ch = "obj" if entry == "object" else "str"
+    # a class group (sub_configs=True) given as a path to its own config file
+    for group, ch in case.get("gfile", {}).items():
+        fname = f"{group.replace('.', '_')}_{ch[0]}.json"
+        content = {"free": 8}
+        if tgt == "gfile":
+            content[[l for l in info["links"] if l["tgt"].startswith(group + ".")][0]["tgt"][len(group) + 1:]] = TGT
+        write_input(info, fname, content)
+        if ch == "argvfile":
+            early.append(f"--{group}={os.path.join(info['indir'], fname)}")
+        elif ch == "envfile":
+            env[env_name(prefix, group)] = os.path.join(info["indir"], fname)
+        else:
+            set_nested(cfgd, group, fname)
+            cfg_as_file = True
     for i, leaf in enumerate(info["leaves"]):
         for tok in case["src"].get(leaf, ()):
             ch, null = chtoken(tok)
@@ -419,7 +494,19 @@ def render(info, case):
     for key, steps in case.get("one", {}).items():
         argv_steps = [n for n, (ch, _) in enumerate(steps) if ch == "argv"]
         for n, (ch, name) in enumerate(steps):
-            if ch == "argv":
+            if ch.endswith("file"):
+                # the class argument is given as a path to its own config file (its value then carries __path__
+                # and a multi-file save() writes it to a file of its own)
+                fname = f"{key.replace('.', '_')}_{ch[0]}.json"
+                write_input(info, fname, spec(name, tgt == "spec"))
+                if ch == "argvfile":
+                    items.append(f"--{key}={os.path.join(info['indir'], fname)}")
+                elif ch == "envfile":
+                    env[env_name(prefix, key)] = os.path.join(info["indir"], fname)
+                else:  # named, relative to it, inside a config that is itself a file
+                    set_nested(cfgd, key, fname)
+                    cfg_as_file = True
+            elif ch == "argv":
                 if tgt == "spec" and n == argv_steps[-1]:
                     items.append(f"--{key}={json.dumps(spec(name, True))}")
                 else:
@@ -487,7 +574,10 @@ def render(info, case):
     argv = None
     if entry in ("args", "print"):
         root_items = []
-        if cfgd:
+        if cfgd and cfg_as_file:
+            write_input(info, "main.json", cfgd)
+            items = ["--config=" + os.path.join(info["indir"], "main.json")] + items
+        elif cfgd:
             cpos = case.get("cpos", "first")
             if cpos == "root":
                 nested = cfgd
@@ -596,7 +686,12 @@ def expected_value(tree, prefix, link):
     args = copy.deepcopy(args)
     if link["fn"] is None:
         return args[0]
-    return C.FUNCS[link["fn"]](*args)
+    try:
+        return C.FUNCS[link["fn"]](*args)
+    except (KeyError, TypeError):
+        # a group-valued / class-valued source that lacks a member in the final configuration (the target of another
+        # link that was not applied): reported as an absent source
+        return ABSENT
 
 
 def sig(oracle, info, link=None, extra=None):
@@ -607,6 +702,8 @@ def sig(oracle, info, link=None, extra=None):
         parts.append("sub")
     if extra:
         parts.append(extra)
+    if info.get("sigtag"):
+        parts.append(info["sigtag"])  # family of the case: links with mixed sources / a parser that had been used
     return ":".join(parts)
 
 
@@ -693,6 +790,9 @@ def check_config(J, parser, make_parser, info, cfg, devs, obs, serial=("yaml", "
             if prefix:
                 continue
             kwargs = {"format": "yaml", "skip_default": True}
+        if fmt == "save" and info.get("outdir"):
+            check_saved(J, parser, make_parser, info, cfg, ref, devs, obs)
+            continue
         if fmt == "save":
             # multi-file save strips the targets on its own path (cfg.clone() + strip) before validating
             from mc.util import scratch_dir
@@ -738,6 +838,73 @@ def check_config(J, parser, make_parser, info, cfg, devs, obs, serial=("yaml", "
         obs["reparsed"] = obs.get("reparsed", 0) + 1
 
 
+def resolve_files(tree, outdir, used):
+    """A saved document with every value that names another written file replaced by that file's content."""
+    import yaml
+
+    if isinstance(tree, dict):
+        return {k: resolve_files(v, outdir, used) for k, v in tree.items()}
+    if isinstance(tree, list):
+        return [resolve_files(v, outdir, used) for v in tree]
+    if isinstance(tree, str) and tree.endswith((".json", ".yaml")) and os.path.isfile(os.path.join(outdir, tree)):
+        used.add(tree)
+        with open(os.path.join(outdir, tree)) as f:
+            return resolve_files(yaml.safe_load(f.read()), outdir, used)
+    return tree
+
+
+def check_saved(J, parser, make_parser, info, cfg, ref, devs, obs):
+    """Multi-file save(): values that came from a file of their own (__path__) are written to separate files.  No
+    written file may contain a target; parse_path of the main file on a fresh parser reconstructs the configuration."""
+    import shutil
+
+    import yaml
+
+    from mc.util import outcome, tcanon
+
+    outdir = info["outdir"]
+    shutil.rmtree(outdir, ignore_errors=True)
+    os.makedirs(outdir)
+    main = os.path.join(outdir, "saved.yaml")
+    d = outcome(parser.save, cfg.clone(), main)
+    if d["kind"] != "ok":
+        devs.append((sig("dump-fails", info, None, "save"), f"save() -> {_short(d)}; cfg {cfg!r}"))
+        return
+    written = sorted(os.listdir(outdir))
+    texts = {}
+    for name in written:
+        with open(os.path.join(outdir, name)) as f:
+            texts[name] = f.read()
+    used = set()
+    try:
+        loaded = resolve_files(yaml.safe_load(texts["saved.yaml"]) or {}, outdir, used)
+    except Exception as ex:
+        devs.append((sig("dump-unreadable", info, None, "save"), f"{ex!r}; {texts!r}"))
+        return
+    obs["dumps"] = obs.get("dumps", 0) + 1
+    obs["saved_subfiles"] = obs.get("saved_subfiles", 0) + len(used)
+    if set(written) != used | {"saved.yaml"}:
+        devs.append((sig("save-writes-unreferenced-file", info), f"{texts!r}"))
+    for link in info["links"]:
+        present = [(w, v) for w, v in target_values(loaded, info["prefix"], link) if v is not ABSENT]
+        if present:
+            devs.append((sig("target-in-dump", info, link, "save"), f"saved files contain {present!r}: {texts!r}"))
+    saved = dict(os.environ)
+    try:
+        apply_env({})
+        r = outcome(make_parser()[0].parse_path, main)
+    finally:
+        os.environ.clear()
+        os.environ.update(saved)
+    if r["kind"] != "ok":
+        devs.append((sig("reparse-fails", info, None, "save"), f"parse_path(saved) -> {_short(r)}; files {texts!r}"))
+        return
+    again = drop_config(plainify(J.strip_meta(r["value"]), J.Namespace))
+    if tcanon(again) != tcanon(ref):
+        devs.append((sig("reparse-differs", info, None, "save"), f"saved {texts!r} re-parses to {again!r}, was {ref!r}"))
+    obs["reparsed"] = obs.get("reparsed", 0) + 1
+
+
 def _short(o):
     if o["kind"] == "ArgumentError":
         return "ArgumentError: " + o["message"][:300]
@@ -777,8 +944,43 @@ def run_single(case):
     def make_parser():
         return build(J, shape, o)
 
-    with restored_process_state():
-        parser, info = make_parser()
+    hist = case.get("hist")
+
+    def warm(root, winfo):
+        # the same call as the case's (without a value for the target), made earlier on the same parser; its
+        # outcome is not judged (a parser on which a target is still a required plain argument rejects it)
+        winp = render(winfo, dict(case, tgt="none"))
+        apply_env(winp["env"])
+        w = do_parse(J, root, case["entry"], winp)
+        obs["warmup"] = w["kind"]
+
+    import contextlib
+
+    from mc.util import scratch_dir
+
+    with restored_process_state(), (scratch_dir() if case.get("files") else contextlib.nullcontext()) as tmp:
+        if tmp:
+            dirs = {"indir": os.path.join(tmp, "in"), "outdir": os.path.join(tmp, "out")}
+            plain_build = build
+
+            def make_parser():  # noqa: F811 - same parsers, told where the input / output files of the case live
+                pr, i = plain_build(J, shape, o)
+                i.update(dirs)
+                return pr, i
+
+        if hist and hist.startswith("late"):
+            parser, info = build(J, shape, o, late=int(hist[4:]), warm=warm)
+            if not info["links_declared_late"]:
+                devs.append((sig("harness:no-link-left-to-declare-late", info), f"{hist} on {shape} {o}"))
+        else:
+            parser, info = make_parser()
+            if hist == "warm":
+                warm(parser, info)
+        if hist:
+            info["sigtag"] = "used-parser"
+            obs["hist"] = hist
+        elif shape == "mix":
+            info["sigtag"] = "mixed-sources"
         inp = render(info, case)
         entry = case["entry"]
         apply_env(inp["env"])
@@ -1055,6 +1257,43 @@ def run_linkset(case):
             for s, f, t in links
         ],
     }
+    if case.get("hist") == "used":
+        # History axis: ONE parser; after every link declaration it is used for a parse (the defaults input of the
+        # links declared so far), and all inputs are then parsed one after the other on that same parser.  Refusals
+        # and unsatisfiable sets are judged by the history-free case of the same set.
+        obs["hist"] = 1
+        with restored_process_state():
+            apply_env({})
+            parser = build_universe(J)
+            for n, (s, f, t) in enumerate(links):
+                r = outcome(parser.link_arguments, tuple(s) if len(s) > 1 else s[0], t, C.FUNCS.get(f))
+                if r["kind"] != "ok":
+                    obs["refused"] = 1
+                    return devs, obs
+                outcome(parser.parse_args, list(linkset_inputs(links[: n + 1])[0][1]))
+                obs["parses"] = obs.get("parses", 0) + 1
+            obs["accepted_set"] = 1
+            if must or unsat:
+                return devs, obs
+            inputs = linkset_inputs(links)
+            if case.get("inputs"):
+                inputs = [inputs[n] for n in case["inputs"]]
+            for entry, data in inputs:
+                if entry == "args":
+                    r = outcome(parser.parse_args, list(data))
+                else:
+                    r = outcome(parser.parse_object, copy.deepcopy(data))
+                obs["parses"] = obs.get("parses", 0) + 1
+                if r["kind"] != "ok":
+                    kind = "parse-fails" if r["kind"] == "ArgumentError" else f"escape:{r.get('type', r['kind'])}"
+                    devs.append((f"linkset:used-parser:{kind}", f"{_short(r)}; links {links!r}; input {data!r}"))
+                    continue
+                obs["accepted"] = obs.get("accepted", 0) + 1
+                sub_devs = []
+                check_config(J, parser, make_parser, info, r["value"], sub_devs, obs, serial=("yaml",))
+                for s_, d in sub_devs:
+                    devs.append((f"linkset:used-parser:{s_}", d + f"; links {links!r}; input {data!r}"))
+        return devs, obs
     with restored_process_state():
         apply_env({})
         # declaration: every prefix of the list; the first refusal ends the case
